@@ -442,6 +442,7 @@ class Interp:
     def check_hint(self, target, v):
         if len(target) > 2 and target[2] is not None and self.type_checks:
             if not self.hint_matches(target[2], v):
+                self.hint_failures = getattr(self, "hint_failures", 0) + 1
                 raise RuntimeErr("hint", "expected " + target[2])
 
     def unpack_strict(self, pats, v, env):
